@@ -1,10 +1,12 @@
 import Driver.Ops.Run
+import Driver.Ops.Sel
 import TacklerModel.Model.Register
 /-! output kinds `register` and `register_all` of op `run`: the printed entries of the register engine
     (no price conversion).  Per entry: header key (ns, code, desc, uuid) and the rows
     (account, amount, running total, commodity).
-    Account selector (until the regex model is wired in): `msel_register` = list of exact account names
-    (absent or empty = all accounts); `register_all` ignores it. -/
+    Account selector (see `Driver/Ops/Sel.lean`): `msel_register` = list of exact account names
+    (absent or empty = all accounts), else `sel_register` / `sel_global` = configured pattern lists
+    (`Tackler.registerBySel`); `register_all` ignores both. -/
 open Lean Tackler Codec
 
 namespace Ops
@@ -27,9 +29,13 @@ def regNames (j : Json) : R (List String) :=
   | some v => strList v
   | none => pure []
 
+def jPrinted (es : List RegEntry) : Json := .arr (es.map jRegEntry).toArray
+
 def outRegister : OutputFn := fun j _ ts => do
-  let names ← regNames j
-  pure (outcome (register (exactRegSel names) ts) jRegister)
+  match ← caseSel j "register" ts with
+  | .exact names => pure (outcome (register (exactRegSel names) ts) jRegister)
+  | .pats ras => pure (outcome (registerBySel ras ts) jPrinted)
+  | .undef => pure (Json.mkObj [("r", "UNDEF")])
 
 def outRegisterAll : OutputFn := fun _ _ ts =>
   pure (outcome (register selAll ts) jRegister)
